@@ -395,7 +395,10 @@ type Runner struct {
 
 func NewRunner() *Runner { return &Runner{E: eng.New("d")} }
 
-func (rn *Runner) History(s Schema, stmts []Stmt, stop func(i int, st Step) bool) []Step {
+// History runs a history on a fresh table. `next(i, cur)` produces statement i from the rows
+// currently stored (nil ends the history); `stop` (may be nil) is consulted after each step and
+// ends the history early when it returns true. Returns the executed statements and their steps.
+func (rn *Runner) History(s Schema, next func(i int, cur []Row) *Stmt, stop func(i int, st Step) bool) ([]Stmt, []Step) {
 	rn.n++
 	e := rn.E
 	ctx := e.Ctx()
@@ -403,7 +406,15 @@ func (rn *Runner) History(s Schema, stmts []Stmt, stop func(i int, st Step) bool
 	e.Query(eng.SameSession(ctx), "DROP TABLE IF EXISTS "+table)
 	e.MustExec(eng.SameSession(ctx), s.DDL(table))
 	var steps []Step
-	for i, st := range stmts {
+	var stmts []Stmt
+	var cur []Row
+	for i := 0; ; i++ {
+		stp := next(i, cur)
+		if stp == nil {
+			break
+		}
+		st := *stp
+		stmts = append(stmts, st)
 		r := e.Query(eng.SameSession(ctx), st.SQL(table))
 		step := Step{Class: r.Class()}
 		if r.Panic != "" {
@@ -418,6 +429,7 @@ func (rn *Runner) History(s Schema, stmts []Stmt, stop func(i int, st Step) bool
 			step.Obs = step.Class + "|dump-failed:" + d.Class()
 		} else {
 			step.Rows = readTable(e, nil, s, d)
+			cur = step.Rows
 			head := step.Class
 			if step.Class == "ok" {
 				head = fmt.Sprintf("ok:%d:%d", step.Affected, step.Matched)
@@ -429,7 +441,17 @@ func (rn *Runner) History(s Schema, stmts []Stmt, stop func(i int, st Step) bool
 			break
 		}
 	}
-	return steps
+	return stmts, steps
+}
+
+// Fixed turns a fixed statement list into a `next` function.
+func Fixed(h []Stmt) func(i int, cur []Row) *Stmt {
+	return func(i int, cur []Row) *Stmt {
+		if i >= len(h) {
+			return nil
+		}
+		return &h[i]
+	}
 }
 
 func JoinObs(steps []Step) string {
@@ -703,7 +725,83 @@ func (g *Gen) totalOrder(s Schema) []Ord {
 	return out
 }
 
-func (g *Gen) Stmt(s Schema) Stmt {
+// printKey mirrors `getRowKey`: the `%v` forms of the key columns, concatenated.
+func printKey(s Schema, r Row) string {
+	var b strings.Builder
+	for _, c := range s.PK {
+		v := r[c]
+		switch {
+		case v.Null:
+			b.WriteString("<nil>")
+		case v.IsStr:
+			b.WriteString(v.S)
+		default:
+			b.WriteString(strconv.FormatInt(v.I, 10))
+		}
+	}
+	return b.String()
+}
+
+func samePK(s Schema, a, b Row) bool {
+	for _, c := range s.PK {
+		if a[c] != b[c] {
+			return false
+		}
+	}
+	return true
+}
+
+func applyAsg(as []Asg, old Row) Row {
+	cur := append(Row(nil), old...)
+	for _, a := range as {
+		switch a.Kind {
+		case "set":
+			cur[a.C] = a.V
+		case "add":
+			if cur[a.C].Null || cur[a.C].IsStr {
+				cur[a.C] = Null
+			} else {
+				cur[a.C] = Int(cur[a.C].I + a.K)
+			}
+		}
+	}
+	return cur
+}
+
+// CollisionRisk: two of the rows an UPDATE / DELETE may touch (stored rows and their updated
+// images) have different key values with the same printed key. The outcome of such a statement
+// depends on the order in which the engine's plan delivers the rows, so the generator pins the
+// order with a total ORDER BY.
+func CollisionRisk(s Schema, cur []Row, as []Asg) bool {
+	if len(s.PK) < 2 {
+		return false
+	}
+	rows := append([]Row(nil), cur...)
+	for _, r := range cur {
+		rows = append(rows, applyAsg(as, r))
+	}
+	seen := map[string]Row{}
+	for _, r := range rows {
+		k := printKey(s, r)
+		if o, ok := seen[k]; ok && !samePK(s, o, r) {
+			return true
+		}
+		seen[k] = r
+	}
+	return false
+}
+
+func (g *Gen) Stmt(s Schema, cur []Row) Stmt {
+	st := g.stmt0(s)
+	if (st.Kind == "upd" || st.Kind == "del") && len(st.Ord) == 0 && CollisionRisk(s, cur, st.Asg) {
+		if o := g.totalOrder(s); o != nil {
+			st.Ord = o
+		}
+	}
+	return st
+}
+
+func (g *Gen) stmt0(s Schema) Stmt {
 	r := g.R
 	k := r.Intn(100)
 	switch {
@@ -754,13 +852,22 @@ func (g *Gen) Stmt(s Schema) Stmt {
 	}
 }
 
-func (g *Gen) History(s Schema) []Stmt {
+// Next returns a `next` function for Runner.History: an INSERT IGNORE of a few rows first, then
+// 1..MaxStmts-1 generated statements.
+func (g *Gen) Next(s Schema) func(i int, cur []Row) *Stmt {
 	n := g.R.Range(2, g.P.MaxStmts)
-	out := []Stmt{{Kind: "ins", Ignore: true, Rows: g.Rows(s, 5), Lim: -1}}
-	for i := 1; i < n; i++ {
-		out = append(out, g.Stmt(s))
+	return func(i int, cur []Row) *Stmt {
+		if i >= n {
+			return nil
+		}
+		var st Stmt
+		if i == 0 {
+			st = Stmt{Kind: "ins", Ignore: true, Rows: g.Rows(s, 5), Lim: -1}
+		} else {
+			st = g.Stmt(s, cur)
+		}
+		return &st
 	}
-	return out
 }
 
 // ---------------------------------------------------------------------------------------------
